@@ -69,6 +69,8 @@ var go2coqTargets = []string{
 	// stage 6 (d): ONE statement of a function that is otherwise outside the subset — the
 	// if-statement of internalConnect whose condition calls hasPort (the address to dial)
 	"stmt:hasPort:Conn.internalConnect",
+	// stage 6 (c): write, with its effects as channels (sleep, I/O, the observed Debug record)
+	"Conn.write",
 }
 
 // fuel override per loop ("func#k", k-th condition loop of the function, from 0); the
@@ -117,6 +119,10 @@ const (
 	tErr    // error -> bool (true = non-nil)
 	tPtr    // result only: pointer to a struct -> option (tuple of its fields)
 	tTuple
+	// effect channels (hidden outputs of a function, stage 6 c)
+	tEffSleep // <-time.After(d): the list of durations waited for
+	tEffIO    // conn.io.WriteString(s) / Flush(): (s, false) / ([], true)
+	tEffLog   // an OBSERVED logging call: (level, format, string arguments)
 )
 
 func (t gtyp) coq() string {
@@ -144,6 +150,12 @@ func (t gtyp) coq() string {
 		return "option bytes"
 	case tErr:
 		return "bool"
+	case tEffSleep:
+		return "list Z"
+	case tEffIO:
+		return "list (bytes * bool)"
+	case tEffLog:
+		return "list (bytes * bytes * list bytes)"
 	}
 	return "BAD"
 }
@@ -153,7 +165,7 @@ func (t gtyp) zero() string {
 		return d.zero
 	}
 	switch t {
-	case tStr, tStrs:
+	case tStr, tStrs, tEffSleep, tEffIO, tEffLog:
 		return "[]"
 	case tByte:
 		return "0%N"
@@ -535,10 +547,17 @@ type gsig struct {
 	clocks   int
 	fieldOut []fieldRef // receiver fields written, sorted by rel
 	emits    bool
+	effs     []string // effect channels "$sleep", "$io", "$log" (in this order)
 	results  []gtyp
 	resCoq   []string           // Coq type of each result
 	pfields  map[int][]fieldRef // pointer parameter i (params[i] == tRoot): the fields passed instead
 }
+
+var effType = map[string]gtyp{"$sleep": tEffSleep, "$io": tEffIO, "$log": tEffLog}
+
+// functions whose logging calls with string arguments are OBSERVED (recorded in the $log channel)
+// instead of dropped: the log record is part of what the property theorems speak about
+var observeLog = map[string]bool{"Conn.write": true}
 
 func (s *gsig) resultType() string {
 	var ts []string
@@ -547,6 +566,9 @@ func (s *gsig) resultType() string {
 	}
 	if s.emits {
 		ts = append(ts, "list bytes")
+	}
+	for _, e := range s.effs {
+		ts = append(ts, effType[e].coq())
 	}
 	for i := range s.results {
 		ts = append(ts, s.resCoq[i])
@@ -602,7 +624,8 @@ type ctx struct {
 }
 
 type ftrans struct {
-	stmtSlice  bool // the body is a selected statement of the function: parameters and results are not translated
+	oracles    []string // extra binders: results of I/O calls, "(iow1 : Z * bool)"
+	stmtSlice  bool     // the body is a selected statement of the function: parameters and results are not translated
 	pi         *pkgInfo
 	info       *types.Info
 	sigs       map[string]*gsig
@@ -1670,6 +1693,24 @@ func (f *ftrans) call(x *ast.CallExpr) ex {
 			return ex{pre: cat(fv.pre, pre), t: t, p: 1, ty: basicType(sg.Results().At(0).Type())}
 		}
 		if sel := f.info.Selections[fn]; sel != nil && sel.Kind() == types.MethodVal {
+			// conn.io.WriteString / Flush: recorded in the I/O channel; the result is an oracle
+			switch f.ioMethod(x) {
+			case "WriteString":
+				a := f.expr(x.Args[0])
+				if a.ty != tStr {
+					failf("WriteString of a %s", a.ty.coq())
+				}
+				io := f.hid["$io"]
+				o := fmt.Sprintf("iow%d", len(f.oracles)+1)
+				f.oracles = append(f.oracles, "("+o+" : Z * bool)")
+				pre := append(append([]nBind{}, a.pre...), nBind{name: io.name, mterm: "Ok (" + io.name + " ++ [(" + a.t + ", false)])", effect: true})
+				return ex{pre: pre, t: o, ty: tTuple, tys: []gtyp{tInt, tErr}}
+			case "Flush":
+				io := f.hid["$io"]
+				o := fmt.Sprintf("ioe%d", len(f.oracles)+1)
+				f.oracles = append(f.oracles, "("+o+" : bool)")
+				return ex{pre: []nBind{{name: io.name, mterm: "Ok (" + io.name + " ++ [([], true)])", effect: true}}, t: o, ty: tErr}
+			}
 			// a method of the state.Tracker interface
 			if r, ok := f.trackerCall(fn, x); ok {
 				return r
@@ -1917,9 +1958,6 @@ func (f *ftrans) callSig(callee *gsig, x *ast.CallExpr, prefix string) ex {
 }
 
 func (f *ftrans) callArgs(callee *gsig, x *ast.CallExpr, prefix string) (pre []nBind, argv string) {
-	if callee.clocks > 0 {
-		failf("call of %s which reads the clock", callee.coq)
-	}
 	var ts []string
 	for _, fr := range callee.fieldIn {
 		v := f.hid[prefix+fr.rel]
@@ -1987,6 +2025,11 @@ func (f *ftrans) callArgs(callee *gsig, x *ast.CallExpr, prefix string) (pre []n
 		}
 	} else if len(x.Args) != np {
 		failf("call of %s with %d arguments", callee.coq, len(x.Args))
+	}
+	// the callee's clock readings are clock readings of the caller, in order
+	for i := 0; i < callee.clocks; i++ {
+		f.clocks++
+		ts = append(ts, fmt.Sprintf("now%d", f.clocks))
 	}
 	for _, t := range ts {
 		argv += " " + t
@@ -2408,7 +2451,17 @@ func (f *ftrans) assigned(nodes ...ast.Node) []*gvar {
 				if v := f.hid["$out"]; v != nil {
 					set[v] = token.Pos(1 << 31)
 				}
+			case *ast.UnaryExpr:
+				if _, ok := f.sleepArg(s); ok {
+					set[f.hid["$sleep"]] = token.Pos(1<<31) + 1
+				}
 			case *ast.CallExpr:
+				if f.ioMethod(s) != "" {
+					set[f.hid["$io"]] = token.Pos(1<<31) + 2
+				}
+				if _, _, _, ok := f.observedLog(s); ok {
+					set[f.hid["$log"]] = token.Pos(1<<31) + 3
+				}
 				if se, ok := s.Fun.(*ast.SelectorExpr); ok {
 					if sel := f.info.Selections[se]; sel != nil && sel.Kind() == types.MethodVal {
 						if id, ok := se.X.(*ast.Ident); ok && f.rootOf(id) != nil && f.rootOf(id).prefix == "" {
@@ -2785,6 +2838,102 @@ func (f *ftrans) rangeStmt(s *ast.RangeStmt, c ctx, k func() node) node {
 }
 
 // a call in statement position: effects of the callee are applied to the hidden state
+// ---------------------------------------------------------------------------------------
+// effect channels (stage 6 c)
+
+// <-time.After(d)
+func (f *ftrans) sleepArg(e ast.Expr) (ast.Expr, bool) {
+	u, ok := e.(*ast.UnaryExpr)
+	if !ok || u.Op != token.ARROW {
+		return nil, false
+	}
+	call, ok := u.X.(*ast.CallExpr)
+	if !ok || !f.isPkgCall(call, "time") || len(call.Args) != 1 {
+		return nil, false
+	}
+	if se := call.Fun.(*ast.SelectorExpr); se.Sel.Name != "After" {
+		return nil, false
+	}
+	return call.Args[0], true
+}
+
+// conn.io.WriteString(s) / conn.io.Flush(): the method name, or ""
+func (f *ftrans) ioMethod(call *ast.CallExpr) string {
+	se, ok := call.Fun.(*ast.SelectorExpr)
+	if !ok || len(f.roots) == 0 {
+		return ""
+	}
+	sel := f.info.Selections[se]
+	if sel == nil || sel.Kind() != types.MethodVal {
+		return ""
+	}
+	if p, ok := f.fieldPath(se.X); !ok || p != ".io" {
+		return ""
+	}
+	switch {
+	case se.Sel.Name == "WriteString" && len(call.Args) == 1:
+		return "WriteString"
+	case se.Sel.Name == "Flush" && len(call.Args) == 0:
+		return "Flush"
+	}
+	failf("I/O call %s", exprText(f.pi, call.Fun))
+	return ""
+}
+
+// a logging call that is recorded: logging.<Level>("constant format", ...) with at least one string argument
+func (f *ftrans) observedLog(call *ast.CallExpr) (level, format string, args []ast.Expr, ok bool) {
+	if !observeLog[f.fname] || !f.isPkgCall(call, "logging") || len(call.Args) == 0 {
+		return
+	}
+	tv, isC := f.info.Types[call.Args[0]]
+	if !isC || tv.Value == nil || tv.Value.Kind() != constant.String {
+		return
+	}
+	// the string arguments are what is recorded (what such a call can leak); the others must be
+	// plain variables or pure calls (d.Seconds()); a call without string arguments is dropped as before
+	for _, a := range call.Args[1:] {
+		if goType(f.info.TypeOf(a)) == tStr {
+			args = append(args, a)
+			continue
+		}
+		if _, isId := a.(*ast.Ident); !isId && !f.isRuntimeExpr(a) {
+			return "", "", nil, false
+		}
+	}
+	if len(args) == 0 {
+		return "", "", nil, false
+	}
+	return call.Fun.(*ast.SelectorExpr).Sel.Name, constant.StringVal(tv.Value), args, true
+}
+
+// which effect channels the body uses
+func (f *ftrans) effectSites(fd *ast.FuncDecl) map[string]bool {
+	sites := map[string]bool{}
+	ast.Inspect(fd.Body, func(n ast.Node) bool {
+		switch x := n.(type) {
+		case *ast.UnaryExpr:
+			if _, ok := f.sleepArg(x); ok {
+				sites["$sleep"] = true
+			}
+		case *ast.CallExpr:
+			if f.ioMethod(x) != "" {
+				sites["$io"] = true
+			}
+			if _, _, _, ok := f.observedLog(x); ok {
+				sites["$log"] = true
+			}
+		}
+		return true
+	})
+	return sites
+}
+
+// the channel c gets the element el appended
+func (f *ftrans) emit(c string, el string, k func() node) node {
+	v := f.hid[c]
+	return nSeq{pat: []string{v.name}, ty: v.ty.coq(), val: nLeaf{v.name + " ++ [" + el + "]"}, body: k()}
+}
+
 func (f *ftrans) callStmt(x *ast.CallExpr, k func() node) node {
 	if se, ok := x.Fun.(*ast.SelectorExpr); ok {
 		if callee, prefix := f.rootMethod(se); callee != nil && prefix == "" && len(callee.results) == 0 {
@@ -2811,6 +2960,25 @@ func (f *ftrans) callStmt(x *ast.CallExpr, k func() node) node {
 }
 
 func (f *ftrans) stmt(s ast.Stmt, c ctx, k func() node) node {
+	if es, ok := s.(*ast.ExprStmt); ok {
+		if d, ok := f.sleepArg(es.X); ok {
+			v := f.expr(d)
+			if v.ty != tInt {
+				failf("time.After of a %s", v.ty.coq())
+			}
+			return withPre(v.pre, f.emit("$sleep", v.t, k))
+		}
+		if call, ok := es.X.(*ast.CallExpr); ok {
+			if level, format, args, ok := f.observedLog(call); ok {
+				pre, as := f.args(args)
+				var ts []string
+				for _, a := range as {
+					ts = append(ts, a.t)
+				}
+				return withPre(pre, f.emit("$log", "("+bytesLit(level)+", "+bytesLit(format)+", ["+strings.Join(ts, "; ")+"])", k))
+			}
+		}
+	}
 	switch f.dropKind(s) {
 	case "log":
 		return f.logArgs(s.(*ast.ExprStmt).X.(*ast.CallExpr), k)
@@ -2923,6 +3091,10 @@ func (f *ftrans) stmt(s ast.Stmt, c ctx, k func() node) node {
 					}
 				}
 				vals = append(vals, "Some "+tuple(fs))
+				continue
+			}
+			if f.sig.results[i] == tErr && f.isNil(e) {
+				vals = append(vals, "false") // return nil for an error
 				continue
 			}
 			v := f.expr(e)
@@ -3086,6 +3258,17 @@ func (f *ftrans) function(name string, fd *ast.FuncDecl) (text string) {
 		f.hid["$out"] = v
 		inits = append(inits, v)
 	}
+	if len(f.roots) > 0 {
+		sites := f.effectSites(fd)
+		for _, e := range []string{"$sleep", "$io", "$log"} {
+			if sites[e] {
+				v := &gvar{name: f.fresh(map[string]string{"$sleep": "sleeps", "$io": "io", "$log": "logs"}[e]), ty: effType[e]}
+				f.hid[e] = v
+				inits = append(inits, v)
+				sig.effs = append(sig.effs, e)
+			}
+		}
+	}
 	final := func(vals []string) node {
 		var all []string
 		for _, fr := range sig.fieldOut {
@@ -3093,6 +3276,9 @@ func (f *ftrans) function(name string, fd *ast.FuncDecl) (text string) {
 		}
 		if sig.emits {
 			all = append(all, f.hid["$out"].name)
+		}
+		for _, e := range sig.effs {
+			all = append(all, f.hid[e].name)
 		}
 		all = append(all, vals...)
 		return nLeaf{tuple(all)}
@@ -3111,6 +3297,7 @@ func (f *ftrans) function(name string, fd *ast.FuncDecl) (text string) {
 	for i := 1; i <= f.clocks; i++ {
 		binders = append(binders, fmt.Sprintf("(now%d : Z)", i))
 	}
+	binders = append(binders, f.oracles...)
 	r := &renderer{tmp: new(int)}
 	r.b.WriteString("Definition " + coqName)
 	for _, b := range binders {
